@@ -108,7 +108,7 @@ CLAIMS["C18"] = ("model_checking",
                  "executed on the real code and validated by TLC.", "5-C18", _FNOTE,
                  "TLA+ model (Slurm) checked by TLC + TLC validation of observations of the real code")
 CLAIMS["C19"] = ("model_checking",
-                 "Launch.tla: POSIX word splitting as a recursive operator, enumerated by TLC over all strings <=5 of a 7-symbol "
+                 "Launch.tla: POSIX word splitting as a recursive operator, enumerated by TLC over all strings <=5 of a 9-symbol "
                  "quoting alphabet; the same strings (x job names, append flags, exit codes 0..255) are launched through the real "
                  "GenericCommandParameters / generate_command / AsyncCliCommand / ResultsAggregator with Popen captured, and TLC "
                  "validates argv, appended --jade-* arguments, environment, stdio files and the recorded row.", "5-C19", _FNOTE,
